@@ -104,6 +104,28 @@ def shard(ctx):
                             blocks.append(ablock + bytes((a[1], a[0])) + abits.to_bytes(6, "little"))
             payload = b"".join(blocks)
             case(ctx, rng, fmt, 4 * len(blocks), 4, 1, payload, cls="block-sweep")
+        # selector words in which all pixels but one carry the same selector: every position of the odd pixel, a sample of (common,
+        # odd) values per shard - a "flat block" shortcut must look at all sixteen pixels
+        for fmt in ("bc1", "bc3", "bc5"):
+            blocks = []
+            nv = 4 if fmt == "bc1" else 8
+            pairs = [(s_, t_) for s_ in range(nv) for t_ in range(nv) if s_ != t_]
+            mine = [p_ for i_, p_ in enumerate(pairs) if (i_ + ctx.index) % max(1, min(ctx.nshards, len(pairs) // 3)) == 0]
+            for s_, t_ in mine:
+                for pos in range(16):
+                    q0, q1 = rng.getrandbits(16), rng.getrandbits(16)
+                    a = bytes((rng.randrange(256), rng.randrange(256)))
+                    sel2 = sum((t_ & 3 if i == pos else s_ & 3) << (2 * i) for i in range(16))
+                    sel3 = sum((t_ if i == pos else s_) << (3 * i) for i in range(16))
+                    if fmt == "bc1":
+                        blocks.append(struct.pack("<HHI", q0, q1, sum((t_ if i == pos else s_) << (2 * i) for i in range(16))))
+                    elif fmt == "bc3":
+                        blocks.append(a + sel3.to_bytes(6, "little") + struct.pack("<HHI", q0, q1, sel2))
+                    else:
+                        blocks.append(a + sel3.to_bytes(6, "little") + bytes((rng.randrange(256), rng.randrange(256))) + sel3.to_bytes(6, "little"))
+            for i in range(0, len(blocks), 64):
+                part = blocks[i:i + 64]
+                case(ctx, rng, fmt, 4 * len(part), 4, 1, b"".join(part), cls="all-but-one-selector-equal")
 
 
 def case(ctx, rng, fmt, w, h, d, payload, cls="random"):
